@@ -41,7 +41,7 @@ TOL = 1e-10
 RECOMPUTE_DRIVERS = ("mixed", "hump", "pos")  # these cases run on a stock that was computed before with other parameters and driver
 QUADS_Q = [("start", 1), ("middle", 1), ("end", 1), ("middle", 4)]
 EXTRAS = ([], [("p", 2)], [("p", 2), ("q", 2)])
-SHAPES = {0: [("scalar", "scalar"), ("t", "scalar")], 1: [("scalar", "scalar"), ("pt", "p")], 2: [("scalar", "scalar"), ("qp", "tq")]}
+SHAPES = {0: [("scalar", "scalar"), ("t", "scalar"), ("T", "scalar")], 1: [("scalar", "scalar"), ("pt", "p")], 2: [("scalar", "scalar"), ("qp", "tq")]}
 
 
 def bounds(tier):
